@@ -17,7 +17,7 @@ def run_compare(ctx):
 
 def common(ctx, prop, kinds):
     ctx.assumptions.append("statement language with byte offsets (nested function declarations, arrow / getter expression statements, function-likes in for-in/of heads); classes and the Visit glue of the three rules are covered by the correspondence only; "
-                           "the specification does not model function-declaration hoisting (a function body is entered only when its declaration is reached); "
+                           "function declarations are hoisted to the top of their statement list in the specification; "
                            "swc's cast_to_bool / ExprCtx (constant conditions) modelled for the condition spellings the generator uses")
     ctx.proof_stage(prop, ["CF/SoundnessCurrent.vo"])
     res = run_compare(ctx)
